@@ -4,7 +4,7 @@ From Coq Require Import List NArith ZArith Bool.
 Import ListNotations.
 Require Import Verif.Lib.Wire Verif.Lib.Text Verif.Lib.Utf8 Verif.Lib.Percent
                Verif.Gen.Facts_C17 Verif.Model.C17 Verif.Model.C17_glue Verif.Gen.Code_C17 Verif.Proofs.C17 Verif.Proofs.C17_gen
-               Verif.Proofs.C17_gen2 Verif.Proofs.C17_total Verif.Proofs.C17_rel Verif.Proofs.C17_text.
+               Verif.Proofs.C17_gen2 Verif.Proofs.C17_total Verif.Proofs.C17_rel Verif.Proofs.C17_text Verif.Proofs.C17_more.
 Open Scope N_scope.
 
 (* extra path elements: split the produced suffix on '/', percent-decode, UTF-8 decode:
@@ -531,3 +531,38 @@ Theorem C17_generate_decodes_text : forall p kw u t,
   generate p kw = Ok u -> spec_path_text p kw = Some t -> unquote_text u = Some t.
 Proof. exact generate_decodes_text. Qed.
 Print Assumptions C17_generate_decodes_text.
+
+(* ================= proof-only round ================= *)
+(* the regenerated function forms pyramid.url.route_path / static_path / current_route_path are the function forms
+   route_url / static_url / current_route_url minus scheme://authority *)
+Theorem C17_gen_fn_paths_are_urls_minus_authority :
+  (forall c e xs rs n els o kw u,
+     assoc n xs = None -> o_app_url o = None -> gen_fn_route_url c e xs rs n els o kw = Ok u ->
+     exists p, gen_fn_route_path c e xs rs n els o kw = Ok p /\ u = host_part e o ++ p)
+  /\ (forall e rs regs path o kw sub s rname u,
+        find_reg_x regs path = Some (sub, RRoute s rname) -> o_app_url o = None ->
+        gen_fn_static_url e rs regs path o kw = Ok u ->
+        exists p, gen_fn_static_path e rs regs path o kw = Ok p /\ u = host_part e o ++ p)
+  /\ (forall c e xs rs rname matched md gt els o kw u,
+        (forall n, assoc n xs = None) -> o_app_url o = None ->
+        gen_fn_current_route_url c e xs rs rname matched md gt els o kw = Ok u ->
+        exists p, gen_fn_current_route_path c e xs rs rname matched md gt els o kw = Ok p /\ u = host_part e o ++ p).
+Proof. exact gen_fn_paths_are_urls_minus_authority. Qed.
+Print Assumptions C17_gen_fn_paths_are_urls_minus_authority.
+
+(* static_path = static_url minus scheme://authority for the _x model (registrations as [reg]), route registrations *)
+Theorem C17_static_x_route_path_minus_authority : forall e rs regs path o kw sub s rname u,
+  find_reg_x regs path = Some (sub, RRoute s rname) ->
+  o_app_url o = None -> static_url_x e rs regs path o kw = Ok u ->
+  exists p, static_path_x e rs regs path o kw = Ok p /\ u = host_part e o ++ p.
+Proof. exact static_x_route_path_minus_authority. Qed.
+Print Assumptions C17_static_x_route_path_minus_authority.
+
+(* totality of static_url for an asset registered under a URL (the URL has to be splittable: see the Example
+   static_url_x_external_needs_splittable_url in Proofs/C17_more.v) *)
+Theorem C17_static_url_x_external_total : forall e rs regs path o kw sub s url,
+  find_reg_x regs path = Some (sub, RExt s url) ->
+  (exists pr, urlparse [] url = Ok pr) ->
+  must_static e rs regs path o kw = true -> exists u, static_url_x e rs regs path o kw = Ok u.
+Proof. exact static_url_x_external_total. Qed.
+Print Assumptions C17_static_url_x_external_total.
